@@ -3,6 +3,7 @@ package mpath
 import (
 	"encoding/json"
 	"fmt"
+	"math"
 	"reflect"
 	"regexp"
 	"sort"
@@ -598,7 +599,14 @@ func stringPartFunc(rtParams FunctionParameterTypes, val any, fn func(string, in
 		return "", fmt.Errorf("parameter must be an integer")
 	}
 
-	paramAsInt := int(param.IntPart())
+	if param.IsNegative() {
+		return "", fmt.Errorf("parameter must not be negative")
+	}
+
+	paramAsInt := math.MaxInt32
+	if param.LessThan(decimal.NewFromInt(math.MaxInt32)) {
+		paramAsInt = int(param.IntPart())
+	}
 
 	if valIfc, ok := val.(string); ok {
 		return fn(valIfc, paramAsInt)
